@@ -31,7 +31,8 @@ def hlist(rng, n, pool=None, null_p=0.1):
 
 POS = [0.0, 1.0, 0.5, 2.0, 1e-8, 1e-310, 7.0, float("inf")]
 STEPS = [1.0, -1.0, 0.5, 2.0, 1e-8, 0.0, 7.0, 1e300]
-NAMES = ["inner_maxeval", "verbosity", "rho_init", "dual_ftol_rel", "tolg", "x", "a_rather_long_parameter_name_0123456789"]
+# includes names that are proper prefixes of each other (a prefix-matching lookup must not confuse them)
+NAMES = ["inner_maxeval", "verbosity", "rho_init", "rho", "dual_ftol_rel", "dual_ftol", "tolg", "tol", "x", "xtol", "a_rather_long_parameter_name_0123456789"]
 
 
 class Hist:
